@@ -6,6 +6,7 @@ import (
 	"os"
 	"os/exec"
 
+	abci "github.com/cometbft/cometbft/abci/types"
 	storetypes "cosmossdk.io/store/types"
 	"crypto/sha256"
 	"encoding/hex"
@@ -48,6 +49,7 @@ type recExpect struct {
 }
 
 type recordWorkload struct {
+	early map[string]bool // ids a simulation reported and that were looked up before their creation
 	run        *ev.Run
 	r          *rig.Rig
 	ids        map[string]*recExpect
@@ -147,10 +149,71 @@ func (w *recordWorkload) rawStore(ctx sdk.Context) map[string]string {
 	return m
 }
 
+// query asks the running application's own query service (the handler a node's gRPC and REST endpoints reach) for a record.
+func (w *recordWorkload) query(ctx sdk.Context, id string) (res *recordtypes.QueryRecordResponse, err error) {
+	defer func() {
+		if rec := recover(); rec != nil {
+			err = fmt.Errorf("query panicked: %v", rec)
+		}
+	}()
+	const path = "/irismod.record.Query/Record"
+	h := w.r.App.GRPCQueryRouter().Route(path)
+	if h == nil {
+		return nil, fmt.Errorf("no query route %s", path)
+	}
+	bz, _ := (&recordtypes.QueryRecordRequest{RecordId: id}).Marshal()
+	out, err := h(ctx, &abci.RequestQuery{Path: path, Data: bz})
+	if err != nil {
+		return nil, err
+	}
+	res = &recordtypes.QueryRecordResponse{}
+	if err := res.Unmarshal(out.Value); err != nil {
+		return nil, err
+	}
+	return res, nil
+}
+
+// lookAhead: every third block the transactions about to be delivered are simulated first (as a client does to learn
+// gas - and the ids - in advance) and the ids the simulation reports are looked up before the records exist. Whatever
+// the answer to that early question is, it must not change what is read back once the record has been created.
+func (w *recordWorkload) lookAhead(txs []rig.Tx) {
+	ctx := w.r.Ctx()
+	for _, tx := range txs {
+		if _, ok := tx.Tag.(*recTag); !ok {
+			continue
+		}
+		func() {
+			defer func() { _ = recover() }()
+			_, res, err := w.r.App.Simulate(tx.Bytes)
+			if err != nil || res == nil {
+				return
+			}
+			for _, mr := range res.MsgResponses {
+				var resp recordtypes.MsgCreateRecordResponse
+				if mr.TypeUrl != "/irismod.record.MsgCreateRecordResponse" || w.r.Cdc.Unmarshal(mr.Value, &resp) != nil || resp.Id == "" {
+					continue
+				}
+				if _, exists := w.ids[resp.Id]; exists {
+					continue
+				}
+				w.run.Eval(1)
+				if q, err := w.query(ctx, resp.Id); err == nil && q.Record != nil && (q.Record.Creator != "" || len(q.Record.Contents) > 0) {
+					w.run.Violation("C19:record:read-before-creation-returns-a-record", map[string]any{"id": resp.Id}, "record id %s (reported by a simulation) already reads back as a record of %s before any creation returned it", resp.Id, q.Record.Creator)
+				}
+				if w.early == nil {
+					w.early = map[string]bool{}
+				}
+				w.early[resp.Id] = true
+				w.run.Count("ids-looked-up-before-their-creation", 1)
+			}
+		}()
+	}
+}
+
 func (w *recordWorkload) readBack(ctx sdk.Context, id string, age string) {
 	run := w.run
 	exp := w.ids[id]
-	res, err := w.r.K.Record.Record(ctx, &recordtypes.QueryRecordRequest{RecordId: id})
+	res, err := w.query(ctx, id)
 	run.Eval(1)
 	det := map[string]any{"id": id, "created_at": exp.Height}
 	if err != nil || res.Record == nil {
@@ -210,6 +273,9 @@ func (w *recordWorkload) Observe(br *rig.BlockRecord) {
 					run.Violation("C19:record:id-returned-twice", map[string]any{"id": resp.Id, "first_height": prev.Height, "height": br.Height, "msg_index": i}, "record id %s returned at height %d was already returned at height %d", resp.Id, br.Height, prev.Height)
 				}
 				continue
+			}
+			if w.early[resp.Id] {
+				run.Count("ids-looked-up-before-their-creation-then-created", 1)
 			}
 			w.ids[resp.Id] = &recExpect{TxHash: txHash, Creator: cm.Creator, Contents: cm.Contents, Height: br.Height}
 			w.order = append(w.order, resp.Id)
@@ -472,6 +538,9 @@ func runRecord(run *ev.Run, c int) {
 				txs = append(txs, r.Mk(proposer, "gov-submit", prop))
 			}
 		}
+		if b%3 == 1 {
+			w.lookAhead(txs)
+		}
 		br := r.DeliverBlock(time.Second, txs)
 		if br.FinalErr != nil {
 			run.Inconc("FinalizeBlock failed: %v", br.FinalErr)
@@ -518,4 +587,6 @@ func runRecord(run *ev.Run, c int) {
 	run.Require("identical-in-one-tx", 1)
 	run.Require("multi-record-tx", 1)
 	run.Require("records-created-by-governance", 3)
+	run.Require("ids-looked-up-before-their-creation", 10)
+	run.Require("ids-looked-up-before-their-creation-then-created", 5)
 }
